@@ -4,9 +4,15 @@ From Coq Require Import List NArith Bool.
 From HC Require Import Stm.Prog Map2.Ops2 Map3.Ops3 Map3.GenSews3.
 Open Scope N_scope.
 
+(* syntactic comparison first (fast, also when it fails): after unfolding the two constants the programs must be the
+   same term up to the names of bound variables; [reflexivity] then only re-checks identical terms *)
+Ltac syn_eq := lazymatch goal with |- ?a = ?b => first [constr_eq a b | fail 1 "the generated program differs from the model"] end.
+
 Section Laws.
 Context `{Sig}.
 Theorem sews3_are_the_source :
   (forall n ks l r, gen_two_sew3 n ks l r = two_sew3 n ks l r) /\ (forall n ks l, gen_two_unsew3 n ks l = two_unsew3 n ks l).
-Proof. split; intros; reflexivity. Qed.
+Proof.
+  split; intros; [cbv beta zeta delta [gen_two_sew3 two_sew3] | cbv beta zeta delta [gen_two_unsew3 two_unsew3]]; syn_eq; reflexivity.
+Qed.
 End Laws.
